@@ -107,7 +107,8 @@ def P_matrix(zeta_deg, z_deg, theta_deg):
 @P.harness("precession_equatorial/is-a-rotation", cases=[dict(fn="precession_equatorial"), dict(fn="precession_newcomb")],
            contracts=CONTRACTS, cuts=_capture_cuts, uf_cuts=_polar_cuts,
            axioms=("pi", "inverse-range", "trig-range", "pythagoras", "sqrt"),
-           timeout=60, functions=[COORD + "precession_equatorial", COORD + "precession_newcomb"], crosscheck=0)
+           timeout=60, functions=[COORD + "precession_equatorial", COORD + "precession_newcomb"], crosscheck=0,
+           branch_timeout_ms=500)
 def h_equ(ctx, fn):
     e1, j1 = epoch(ctx, "jde1")
     e2, j2 = epoch(ctx, "jde2")
